@@ -100,7 +100,7 @@ func checkPair(c *ukit.Spec, cs schema.Type, pr pair, tier string, res *ux.Resul
 	var first string
 	execs := 0
 	dev := 1
-	e := &mcrt.Explorer{MaxPreempt: 0, MaxDelay: -1, MaxDeviate: dev, MaxSteps: 1 << 20, Body: func() {
+	e := &mcrt.Explorer{Embedded: true, MaxPreempt: 0, MaxDelay: -1, MaxDeviate: dev, MaxSteps: 1 << 20, Body: func() {
 		if err := cs.ValidateCompatibility(ps); err != nil {
 			first = "reject: " + err.Error()
 		} else {
